@@ -23,6 +23,12 @@ class Panic(Exception):
         self.kind, self.msg, self.where = kind, msg, where
 
 
+# Longest byte string considered: no Rust slice is longer than isize::MAX, and all the strings of one
+# execution share one address space -- with each at most 2^55 bytes, sums of up to 256 lengths
+# (capacity computations) do not wrap, as they cannot on a real machine.
+MAX_BYTES = 1 << 55
+
+
 class Unsupported(Exception):
     pass
 
@@ -93,7 +99,7 @@ class PathCtx:
         'concrete' = length chosen by fork in 0..max_len, symbolic bytes (ASCII for text)."""
         if mode == "opaque":
             ln = self.fresh_bv(name + ".len", 64)
-            self.assume(z3.ULE(ln, (1 << 63) - 1))      # no Rust slice is longer than isize::MAX
+            self.assume(z3.ULE(ln, MAX_BYTES))
             self.side.setdefault("opaque_lens", []).append(ln)
             self.seq_counter += 1
             return VecV(None, Opaque("%s#%d" % (name, self.seq_counter), ln), kind)
@@ -106,7 +112,7 @@ class PathCtx:
 
     def fresh_opaque(self, name, kind="vec", nonempty=False):
         ln = self.fresh_bv(name + ".len", 64)
-        self.assume(z3.ULE(ln, (1 << 63) - 1))          # no Rust slice is longer than isize::MAX
+        self.assume(z3.ULE(ln, MAX_BYTES))
         self.side.setdefault("opaque_lens", []).append(ln)
         if nonempty:
             self.assume(ln != 0)
